@@ -57,9 +57,9 @@ RULE = ('magnitude-differential: C01 generators (random, constructed quotient ti
         'non-score evaluator: identical outcomes. exact-types: no float in PureProportionality seats, split approvals, exact means, Gregory transfer tallies. '
         'non-trivial = result contains a tie, or k > 2^53, or a party / candidate exactly on a line; distinct by case hash')
 PARTIAL = ['every configuration of the registry now has a scale theorem or a proved refutation (docs/C11.md lists them); what stays partial: majority judgment with the DEFAULT tie-break is proved scale-free '
-           'on balanced score dictionaries (complete ballots) only - on partial ballots it is proved NOT scale-free (known finding C11-mj-default-scale)',
+           'on balanced score dictionaries (complete ballots) only (repaired evaluator: C11_scale_mj_default_repaired_partial); on partial ballots the repaired rule has no crash outcome at any scale (C11_scale_mj_default_no_crash; finding C11-mj-default-scale fixed by fixes/C12-mj-default-exhausted), that its ANSWER is scale-free there is stated (C11_scale_mj_default_repaired_full_statement) and decided per explored case',
            'the ORDER of the list AlternativeThresholds returns (mean rank, then set iteration order) is not modelled: the selector theorems are about the set of passing parties',
-           'score-family evaluators materialise one list element per voter (known finding C11-score-materialises): their scale factors stay <= 1000 in the metamorphic stream; the theorems hold for every factor',
+           'the capped truncation of fixes/C12-truncation-middle is not homogeneous for the SUM of a candidate whose scores the configured cut-off would wipe out (C11_scale_score_truncation_sum_capped_refuted); no registered configuration truncates',
            'float-freeness of the implementation is by construction a per-case observation (the models compute in Q)']
 TRUSTED = []
 KS = [2, 3, 7, 10 ** 6, 10 ** 25 + 7]
